@@ -215,6 +215,11 @@ def main(ctx):
     for (wa, wb) in pairs + extra:
         comb_case(ctx, 'kogge_stone', [wa, wb], lambda i: adders.kogge_stone(i[0], i[1]), lambda v: v[0] + v[1], rng, limit, 'kogge_stone')
         comb_case(ctx, 'ripple_add', [wa, wb], lambda i: adders.ripple_add(i[0], i[1]), lambda v: v[0] + v[1], rng, limit, 'ripple_add')
+        # every adder with a carry-in wire, operands of either length order
+        comb_case(ctx, 'ripple_add_cin', [wa, wb, 1], lambda i: adders.ripple_add(i[0], i[1], i[2]),
+                  lambda v: v[0] + v[1] + v[2], rng, limit, 'ripple_add')
+        comb_case(ctx, 'cla_adder_cin', [wa, wb, 1], lambda i: adders.cla_adder(i[0], i[1], i[2]),
+                  lambda v: v[0] + v[1] + v[2], rng, limit, 'cla_adder', {'la_unit_len': 4})
         for ul in (1, 2, 3, 4):
             if ul != 4 and rng.random() < 0.5:
                 continue
@@ -233,15 +238,15 @@ def main(ctx):
                       lambda v: v[0] * v[1], rng, limit)
         if wa >= 2 and wb >= 2:
             comb_case(ctx, 'signed_tree_multiplier', [wa, wb], lambda i: multipliers.signed_tree_multiplier(i[0], i[1]),
-                      lambda v: sgn(v[0], wa) * sgn(v[1], wb), rng, limit)
+                      lambda v: sgn(v[0], wa) * sgn(v[1], wb), rng, limit, 'signed_tree_multiplier')
     triples = [(a, b, c) for a in range(1, 5) for b in range(1, 5) for c in range(1, 5)]
     rng.shuffle(triples)
     for (wa, wb, wc) in triples[:ctx.n(24, 64)]:
         if min(wa, wb, wc) >= 2 or True:
             comb_case(ctx, 'carrysave_adder', [wa, wb, wc], lambda i: adders.carrysave_adder(i[0], i[1], i[2]),
-                      lambda v: v[0] + v[1] + v[2], rng, limit)
+                      lambda v: v[0] + v[1] + v[2], rng, limit, 'carrysave_adder')
         comb_case(ctx, 'fused_multiply_adder', [wa, wb, wc], lambda i: multipliers.fused_multiply_adder(i[0], i[1], i[2]),
-                  lambda v: v[0] * v[1] + v[2], rng, limit)
+                  lambda v: v[0] * v[1] + v[2], rng, limit, 'generalized_fma', {'npairs': 1})
         for red in (adders.wallace_reducer, adders.dada_reducer):
             comb_case(ctx, 'fast_group_adder_' + red.__name__, [wa, wb, wc],
                       lambda i, red=red: adders.fast_group_adder(i, reducer=red), lambda v: sum(v), rng, limit,
@@ -255,7 +260,7 @@ def main(ctx):
                   'fast_group_adder', {'final_adder': 'ripple_add'})
         comb_case(ctx, 'generalized_fma', list(q) + [rng.randint(1, 4)],
                   lambda i: multipliers.generalized_fma([(i[0], i[1]), (i[2], i[3])], [i[4]]),
-                  lambda v: v[0] * v[1] + v[2] * v[3] + v[4], rng, limit)
+                  lambda v: v[0] * v[1] + v[2] * v[3] + v[4], rng, limit, 'generalized_fma', {'npairs': 2})
         comb_case(ctx, 'fast_group_adder2', list(q[:2]), lambda i: adders.fast_group_adder(i), lambda v: sum(v), rng, limit, 'fast_group_adder')
     sq_n = sq_bad = 0
     for (wa, wb) in [(a, b) for a in range(1, ctx.n(5, 8)) for b in range(1, ctx.n(5, 8))]:
